@@ -664,7 +664,22 @@ impl VLog {
 			// Look for VLog files
 			if let Some(file_id) = self.opts.extract_vlog_file_id(&file_name_str) {
 				let file_path = entry.path();
-				let file_size = entry.metadata()?.len();
+				let mut file_size = entry.metadata()?.len();
+
+				// A file shorter than its header is a creation that a crash
+				// interrupted: the header is written first, so the file holds no
+				// entry and nothing can point into it. Reset it to empty (the
+				// writer puts a fresh header into an empty file) instead of
+				// refusing to open the store.
+				if file_size > 0 && file_size < VLogFileHeader::SIZE as u64 {
+					log::warn!(
+						"VLog file {file_name_str} has an incomplete header ({file_size} bytes), resetting it"
+					);
+					let f = OpenOptions::new().write(true).open(&file_path)?;
+					f.set_len(0)?;
+					f.sync_all()?;
+					file_size = 0;
+				}
 
 				// Track the file with maximum ID for active writer setup
 				if max_file_id.is_none_or(|current_max| file_id >= current_max) {
